@@ -304,6 +304,64 @@ def fn_round(case, ctx):
 
 # =============================================================================================== polylines
 
+def stretched(V, d, g=3.0):
+    """stretch radially about the centroid by a factor 1/g .. g growing along the unit direction d (non-affine: length and area
+    *ratios* change, also on planar meshes when d has an in-plane component)"""
+    V = np.array(V, dtype=float)
+    c = V.mean(axis=0)
+    R = max(float(np.max(np.linalg.norm(V - c, axis=1))), 1e-300)
+    return c + (V - c) * np.exp(math.log(g) * ((V - c) @ np.asarray(d)) / R)[:, None]
+
+
+def stale_geometry(rnd, V, F=None):
+    """An *earlier* geometry V0 of the same mesh (class 'cached-attr'): the case builds the mesh on V0, computes the persistent
+    attributes a sampler could be tempted to reuse (edge 'length' / face 'area' / face 'normals'), then moves every vertex to V by
+    rebinding mesh.vertices[i].  Samples, shares and normals must follow V.  Returns None when V0 would be degenerate."""
+    A = np.array(V, dtype=float)
+    # direction chosen inside the span of the point set, so that planar inputs are stretched in their plane
+    c = A.mean(axis=0)
+    w = np.array([rnd.gauss(0, 1) for _ in range(len(A))])
+    d = (A - c).T @ w
+    if not np.linalg.norm(d) > 0:
+        return None
+    d = d / np.linalg.norm(d)
+    W = stretched(A, d, 4.0)
+    # plus an anisotropic scaling about the centroid (changes the ratios between non-parallel edges / non-parallel faces)
+    W = c + (W - c) * np.array([rnd.choice([0.4, 1.0, 2.5]) for _ in range(3)])
+    if not np.all(np.isfinite(W)):
+        return None
+    if F is not None and G.min_angle_deg(W.tolist(), F) < 3.0:
+        return None
+    if len(set(map(tuple, W.tolist()))) < len(W):
+        return None
+    return W.tolist()
+
+
+STALE_NOTE = " [mesh built on an earlier geometry, persistent length/area/normals attributes computed there, vertices then moved]"
+
+
+def build_mesh(case, kind, ctx, normals=False):
+    """fresh mesh on case['V']; with case['V0']: built on V0, persistent attributes computed there, then every vertex rebound to V"""
+    import mouette as M
+    V0 = case.get("V0")
+    first = V0 if V0 else case["V"]
+    mesh = polyline_from(first, case["E"]) if kind == "polyline" else surface_from(first, case["F"])
+    if not V0:
+        ctx.label("fresh-mesh")
+        return mesh
+    ctx.label("cached-attr")
+    if kind == "polyline":
+        M.attributes.edge_length(mesh)                 # persistent by default: stores the edge attribute "length"
+    else:
+        M.attributes.face_area(mesh)                   # stores the face attribute "area"
+        if normals:
+            M.attributes.face_normals(mesh)            # stores the face attribute "normals"
+            ctx.label("cached-normals")
+    for i, p in enumerate(case["V"]):
+        mesh.vertices[i] = M.Vec(float(p[0]), float(p[1]), float(p[2]))
+    return mesh
+
+
 @st.composite
 def polylines(draw, mix, min_edges=1):
     n = max(draw(st.integers(2, 12)), mix.choice([2, 2, 3, 4, 5, 6, 8]))
@@ -346,7 +404,7 @@ def polylines(draw, mix, min_edges=1):
 def polyline_case(draw):
     rnd = mixer(draw)
     p = draw(polylines(rnd))
-    p.update({"n": draw_count(draw, rnd), "pc": rnd.random() < 0.3})
+    p.update({"n": draw_count(draw, rnd), "pc": rnd.random() < 0.3, "V0": stale_geometry(rnd, p["V"]) if rnd.random() < 0.4 else None})
     return p
 
 
@@ -365,8 +423,8 @@ def fn_polyline(case, ctx):
         ctx.label(t)
     ctx.label("pc" if pc else "array", "n=0" if n == 0 else "n>0")
     ctx.nontrivial(len(E) >= 2 and n > 0)
-    mesh = polyline_from(case["V"], E)
-    what = f"sample_polyline(<{len(V)} vertices, edges {E}>, {n}, return_point_cloud={pc})"
+    mesh = build_mesh(case, "polyline", ctx)
+    what = f"sample_polyline(<{len(V)} vertices, edges {E}>, {n}, return_point_cloud={pc})" + STALE_NOTE * bool(case.get("V0"))
     ok, res = ctx.call("polyline:call", sampling.sample_polyline, mesh, n, return_point_cloud=pc)
     if not ok:
         return
@@ -401,7 +459,8 @@ def scaled_trisurf(draw, mix, max_faces=60):
 def surface_case(draw):
     rnd = mixer(draw)
     s = draw(scaled_trisurf(rnd))
-    s.update({"n": draw_count(draw, rnd), "pc": rnd.random() < 0.5, "normals": rnd.random() < 0.6})
+    s.update({"n": draw_count(draw, rnd), "pc": rnd.random() < 0.5, "normals": rnd.random() < 0.6,
+              "V0": stale_geometry(rnd, s["V"], s["F"]) if rnd.random() < 0.4 else None})
     return s
 
 
@@ -438,8 +497,8 @@ def fn_surface(case, ctx):
             ctx.label(t)
     ctx.label("pc" if pc else "array", "normals" if wn else "no-normals", "n=0" if n == 0 else "n>0")
     ctx.nontrivial(len(F) >= 2 and n > 0)
-    mesh = surface_from(case["V"], case["F"])
-    what = f"sample_surface(<{len(V)} vertices, {len(F)} triangles>, {n}, return_point_cloud={pc}, return_normals={wn})"
+    mesh = build_mesh(case, "surface", ctx, normals=wn)
+    what = f"sample_surface(<{len(V)} vertices, {len(F)} triangles>, {n}, return_point_cloud={pc}, return_normals={wn})" + STALE_NOTE * bool(case.get("V0"))
     ok, res = ctx.call("surface:call", sampling.sample_surface, mesh, n, return_point_cloud=pc, return_normals=wn)
     if not ok:
         return
@@ -503,15 +562,18 @@ def stat_case(draw, kind):
             p["V"], p["F"] = G.op_tri_1to3(p["V"], p["F"], 0)
         if rnd.random() < 0.7:
             # unequal face areas: stretch radially about the centroid by a factor 1/3 .. 3 growing along a drawn direction
-            V = np.array(p["V"], dtype=float)
-            c = V.mean(axis=0)
-            R = max(float(np.max(np.linalg.norm(V - c, axis=1))), 1e-300)
             d = np.array([rnd.gauss(0, 1) for _ in range(3)]); d /= np.linalg.norm(d)
-            W = c + (V - c) * np.exp(math.log(3.0) * ((V - c) @ d) / R)[:, None]
+            W = stretched(p["V"], d, 3.0)
             if G.min_angle_deg(W.tolist(), p["F"]) >= 3.0:
                 p["V"] = W.tolist()
                 p["tags"] = p["tags"] + ["stretched"]
     p["kind"] = kind
+    p["V0"] = None
+    if rnd.random() < 0.5:
+        for _ in range(4):                      # the degeneracy guard rejects some stretches of already stretched surfaces: retry
+            p["V0"] = stale_geometry(rnd, p["V"], p.get("F"))
+            if p["V0"]:
+                break
     p["salt"] = rnd.randrange(10 ** 6)       # only varies the seed derived from the case
     return p
 
@@ -523,7 +585,7 @@ def fn_stat(case, ctx):
     ctx.label(case["kind"])
     if case["kind"] == "polyline":
         E = np.array(case["E"], dtype=int)
-        mesh = polyline_from(case["V"], case["E"])
+        mesh = build_mesh(case, "polyline", ctx)
         ok, P = ctx.call("stat:call", sampling.sample_polyline, mesh, N_STAT)
         if not ok:
             return
@@ -537,7 +599,7 @@ def fn_stat(case, ctx):
         name = "edge"
     else:
         F = np.array(case["F"], dtype=int)
-        mesh = surface_from(case["V"], case["F"])
+        mesh = build_mesh(case, "surface", ctx)
         ok, P = ctx.call("stat:call", sampling.sample_surface, mesh, N_STAT)
         if not ok:
             return
@@ -567,6 +629,7 @@ def fn_stat(case, ctx):
         p = float(share[j])
         sigma = math.sqrt(N_STAT * p * (1 - p))
         ctx.check(binom_ok(int(counts[j]), N_STAT, p, alpha), "stat:share",
+                  STALE_NOTE * bool(case.get("V0")) +
                   f"{name} {j} has {name == 'edge' and 'length' or 'area'} share {p:.4f} (expected {N_STAT * p:.1f} of {N_STAT} samples, sigma {sigma:.1f}) "
                   f"but received {int(counts[j])} samples ({(counts[j] - N_STAT * p) / max(sigma, 1e-12):+.1f} sigma; binomial tail < {alpha:.1e}); "
                   f"all counts {counts.tolist()} vs expected {[round(N_STAT * float(x), 1) for x in share]}")
